@@ -9,12 +9,13 @@ from vf import build, gen, monitors
 
 ID = "C11"
 RULE = ("random shots (winds, inclined, canted, all tables) x request families: base (R, S, plain) against extra data, 2R, "
-        "k*S, S/k, non-nested steps sharing some multiples, time steps 1e-3..0.1 s with/without extra data, and ranges "
+        "k*S, S/k, non-nested steps sharing some multiples, time steps 1e-3..0.1 s with/without extra data, (R, S, time step, plain) "
+        "against (R, S, time step, extra data), and ranges "
         "beyond the projectile's reach (RangeError results compared up to the terminal row); a case = (shot, base "
         "request, variant); non-trivial when the variant differs from the base in at least one request parameter and "
         "at least 2 rows are shared")
 MUST_OBSERVE = ["request_pairs", "row_pairs_compared", "variant_extra", "variant_longer", "variant_coarser", "variant_finer",
-                "variant_time_step", "subset_checks", "same_calculator_requests", "fresh_calculator_requests", "extra_only_rows_checked", "rangeerror_results", "variant_other_step", "variant_sub_step"]
+                "variant_time_step", "subset_checks", "same_calculator_requests", "fresh_calculator_requests", "extra_only_rows_checked", "rangeerror_results", "variant_other_step", "variant_sub_step", "variant_extra_time_step"]
 ASSUMPTIONS = ["rows are matched by distance to 1e-9 relative among rows carrying the RANGE flag; the terminal row of an "
                "incomplete trajectory and the flag-less 'second point' row are not range-card rows and are not compared"]
 REL = 1e-9
@@ -63,6 +64,20 @@ def match(rows_a, rows_b):
     return out
 
 
+def match_by_time(rows_a, rows_b):
+    """Pairs (i, j) of rows with equal time (1e-12 relative); time is strictly ascending in every result, distance is not
+    (a lofted projectile may end up drifting back).  Used where both requests record at the same integration points."""
+    out, j = [], 0
+    for i, a in enumerate(rows_a):
+        if not a.flag & TrajFlag.RANGE:
+            continue
+        while j < len(rows_b) and rows_b[j].time < a.time - 1e-12 * max(1.0, a.time):
+            j += 1
+        if j < len(rows_b) and abs(rows_b[j].time - a.time) <= 1e-12 * max(1.0, a.time):
+            out.append((i, j))
+    return out
+
+
 def check_case(ctx, case):
     monitors.reset_all()
     shot = build.shot(case["shot"])
@@ -80,8 +95,19 @@ def check_case(ctx, case):
     if raised_a:
         ctx.count("rangeerror_results")
         rows_a = rows_a[:-1]
+    rows_a0, raised_a0, base0 = rows_a, raised_a, base
     for var in case["variants"]:
         req = var["request"]
+        rows_a, raised_a, base = rows_a0, raised_a0, base0
+        if "base_request" in var:
+            # this variant is compared with its own base (the plain request with the same time step)
+            base = var["base_request"]
+            shot_a = build.shot(case["shot"])
+            shot_a.weapon.zero_elevation = pb.Angular.Radian(zero_raw)
+            rows_a, raised_a = fire(calc, shot_a, base)
+            if raised_a:
+                ctx.count("rangeerror_results")
+                rows_a = rows_a[:-1]
         shot_b = build.shot(case["shot"])
         shot_b.weapon.zero_elevation = pb.Angular.Radian(zero_raw)
         rows_b, raised_b = fire(calc if var.get("same_calculator", True) else build.calculator(cfg), shot_b, req)
@@ -91,8 +117,8 @@ def check_case(ctx, case):
         ctx.count("request_pairs")
         ctx.count("same_calculator_requests" if var.get("same_calculator", True) else "fresh_calculator_requests")
         ctx.count("variant_" + var["kind"])
-        c = {"shot": case["shot"], "config": cfg, "base": base, "variants": [var]}
-        pairs = match(rows_a, rows_b)
+        c = {"shot": case["shot"], "config": cfg, "base": base0, "variants": [var], "zero_first_ft": case.get("zero_first_ft")}
+        pairs = match_by_time(rows_a, rows_b) if var["kind"] == "extra_time_step" else match(rows_a, rows_b)
         for i, j in pairs:
             fa, fb = fields(rows_a[i]), fields(rows_b[j])
             ctx.count("row_pairs_compared")
@@ -125,7 +151,7 @@ def check_case(ctx, case):
                     ctx.violation("subset." + var["kind"], f"row at {xa!r} ft of the {base} result has no counterpart in the {req} result",
                                   c, distance=xa)
                     break
-        if var["kind"] == "extra" and not base.get("time_step"):
+        if var["kind"] in ("extra", "extra_time_step"):
             matched_b = {j for _, j in pairs}
             for j, b in enumerate(rows_b):
                 if j in matched_b:
@@ -163,6 +189,11 @@ def gen_case(rng):
          "expect_superset": True},
         {"kind": "finer", "request": dict(base, step_ft=step / k, extra=True, range_ft=r * 1.25), "expect_superset": True},
     ]
+    # time step and extra data together: the plain request with a time step against the same request with extra data (the rows
+    # recorded on time must be the same ones; the additional rows must all be events)
+    ts = rng.choice([0.01, 0.03, 0.05, 0.1, 0.25])
+    variants.append({"kind": "extra_time_step", "base_request": dict(base, time_step=ts), "request": dict(base, time_step=ts, extra=True),
+                     "expect_superset": True})
     # a recording step below the maximum integration step (0.25 <= s < 0.5 ft: every multiple still gets a row)
     sub = step / max(1, round(step / 0.3))
     if 0.26 <= sub < 0.5 and not reach:
